@@ -87,6 +87,8 @@ BETWEEN = (
 
 def enumerate_cases(tier: str):
     """rejected message, ONE event of every kind, rejected message again - per version, with and without a known node."""
+    # one event of every kind under every environment dimension (transport kind, logging, warnings, a bystander gateway, registry file, ...)
+    yield from drive.env_sweep_cases()
     for version in ("2.0", "2.2", "1.5"):
         for registry in ({}, {"5": {"children": {"0": {"child_type": 6}}}}):
             for first in MISSING_KINDS:
@@ -142,6 +144,8 @@ def strategy(tier: str):
 
 
 def run_case(case: dict) -> Outcome:
+    if case.get("kind") == "envsweep":
+        return drive.run_env_case(case, ASPECTS)
     fails = set(case.get("fail_requests", []))
     state = {"req_attempts": 0, "failed": 0, "retry_after_fail": False, "failed_nodes": set(), "rearm": False, "presented": set(), "episodes": {}}
 
